@@ -771,8 +771,14 @@ func ruleC08(w *World) {
 				continue
 			}
 			fresh, answered := false, false
+			_ = cplFn
 			for _, e := range t.Out.Effects {
-				if e.Kind == "mapupdate" && strings.HasSuffix(e.Fn, ")."+cplFn) && strings.Contains(e.What, "fresh=true") {
+				// the complaint is accepted as new: a record marked received is installed, or an existing record's
+				// received flag is raised (wherever the code that does it lives)
+				if e.Kind == "mapupdate" && strings.Contains(e.What, "fresh=true") && strings.Contains(e.What, "received=T") {
+					fresh = true
+				}
+				if e.Kind == "store" && e.What == "fresh record: "+d.m.recvFld.Name()+":=T" {
 					fresh = true
 				}
 				if e.Kind == "call" && e.What == ak {
@@ -853,6 +859,15 @@ func ruleC08(w *World) {
 	w.ruleVerdictOwnership("C08.R5", d)
 	w.ruleEndGuards("C08.R6", d)
 	w.ruleDisqualificationRules("C08.R7", d)
+	// R9 duplicated answers are flagged, not acted upon (same rule as C07.R8)
+	w.floor("C08.R9", 1)
+	qualFns := map[string]*ssa.Function{}
+	for _, fn := range w.srcFuncs(rootPath) {
+		if fn.Signature.Recv() != nil && types.Identical(deref(fn.Signature.Recv().Type()), d.qual) {
+			qualFns[fn.Name()] = fn
+		}
+	}
+	w.ruleAnswerWrittenOnce("C08.R9", qualFns)
 }
 
 func (w *World) ruleVerdictOwnership(rule string, d *dkgAnchors) {
@@ -1074,15 +1089,17 @@ func shortFacts(fs []string) string {
 func ruleC07(w *World) {
 	w.floor("C07.R1", 6)
 	w.floor("C07.R2", 3)
-	w.floor("C07.R3", 3)
+	w.floor("C07.R3", 1) // sites merge when a get-or-create accessor is introduced; the vacuity guard is "at least one"
 	w.floor("C07.R4", 1)
 	w.floor("C07.R5g", 4)
 	w.floor("C07.R6", 3)
-	w.floor("C07.R8", 2)
+	w.floor("C07.R8", 1)
 	d := w.dkg("C07.R1")
 	if d == nil {
 		return
 	}
+	w.floor("C07.R9", 4)
+	w.ruleJointDispatch("C07.R9", d)
 	sys := d.systems(w)
 	// R4 monotone verdict
 	{
@@ -1306,36 +1323,7 @@ func ruleC07(w *World) {
 			w.check(okk, "C07.R3", ckey, mu.Pos(), "a fresh complaint record is installed only after a failed lookup of the same key", "a fresh complaint record overwrites whatever was stored for `"+key+"` (an earlier answer or complaint is lost): honest participants end with different complaint tables", factStrings(fs)...)
 		})
 	}
-	// R8 the stored answer of a complaint record is written once: only for a fresh record or while the record has no answer yet
-	nans := 0
-	for _, fn := range qualFns {
-		instrs(fn, func(ins ssa.Instruction) {
-			c, ok := ins.(ssa.CallInstruction)
-			if !ok || len(c.Common().Args) == 0 {
-				return
-			}
-			a0 := render(c.Common().Args[0])
-			if !strings.HasSuffix(a0, ".answer") || !strings.HasPrefix(a0, "&") {
-				return
-			}
-			if !w.callMayWritePointArg(c, c.Common().Args[0]) {
-				return // readers of the stored answer (the discrete-log check)
-			}
-			nans++
-			fs := factStrings(w.testedBefore(ins)) // the test must have been made on this path; the flag itself is set right after it
-			okk := false
-			for _, f := range fs {
-				if strings.HasSuffix(f, ".answerReceived == false") || strings.HasSuffix(f, "]#1 == false") {
-					okk = true
-				}
-			}
-			w.check(okk, "C07.R8", fnKey(fn)+"/answer-written-once", ins.Pos(), "the answer scalar is stored only into a fresh record or one that has no answer yet",
-				"a complaint answer is parsed into the record without the `no answer stored yet` test dominating it: a second, different answer from the dealer overwrites the first, and participants that processed the complaint in between keep different answers", fs...)
-		})
-	}
-	if nans == 0 {
-		w.undecided("C07.R8", "answer-writes", token.NoPos, "no write of a complaint answer found")
-	}
+	w.ruleAnswerWrittenOnce("C07.R8", qualFns)
 	// R5 (Go side) vector intake
 	for _, t := range []*types.Named{d.plain, d.qual} {
 		fn := w.method(t, d.role(t, "vector"))
@@ -1461,5 +1449,149 @@ func ruleC07(w *World) {
 		}
 		_ = found
 		w.check(has1 && has2, "C07.R6", fnKey(end)+"/failure-rule", end.Pos(), "fails iff disqualified > t or n − disqualified ≤ t", fmt.Sprintf("Joint-Feldman failure rule changed: expected tests `disq > t` and `n − disq ≤ t`, found %v", conds))
+	}
+}
+
+// ruleJointDispatch (C07.R9): in the Joint-Feldman event handlers a call into the per-dealer instance k must not be
+// conditioned on mutable state of another instance j ≠ k. Every honest participant has to process a broadcast the same
+// way whatever it already concluded about *other* dealers (those conclusions are reached in different orders by
+// different receivers within a round); an instance may of course look at its own state.
+func (w *World) ruleJointDispatch(rule string, d *dkgAnchors) {
+	if d.joint == nil || d.qual == nil {
+		w.undecided(rule, "anchor:joint", token.NoPos, "unresolved anchor: Joint-Feldman type")
+		return
+	}
+	isSub := func(t types.Type) bool { return types.Identical(deref(t), d.qual) }
+	// instanceIndex: the rendered index expressions of the fvss elements a pointer value may denote
+	var instIdx func(v ssa.Value, seen map[ssa.Value]bool, out map[string]bool)
+	instIdx = func(v ssa.Value, seen map[ssa.Value]bool, out map[string]bool) {
+		if v == nil || seen[v] {
+			return
+		}
+		seen[v] = true
+		switch x := v.(type) {
+		case *ssa.IndexAddr:
+			if isSub(deref(x.Type())) {
+				out[render(stripConv(x.Index))] = true
+				return
+			}
+			instIdx(x.X, seen, out)
+		case *ssa.FieldAddr:
+			instIdx(x.X, seen, out)
+		case *ssa.Phi:
+			for _, e := range x.Edges {
+				instIdx(e, seen, out)
+			}
+		case *ssa.UnOp:
+			instIdx(x.X, seen, out)
+		case *ssa.ChangeType:
+			instIdx(x.X, seen, out)
+		case *ssa.Alloc:
+			// a local pointer variable: what is stored into it
+			for _, r := range *x.Referrers() {
+				if st, ok := r.(*ssa.Store); ok && st.Addr == x {
+					instIdx(st.Val, seen, out)
+				}
+			}
+		default:
+			out["?"+render(v)] = true
+		}
+	}
+	n := 0
+	for _, name := range []string{"HandleBroadcastMsg", "HandlePrivateMsg", "NextTimeout", "ForceDisqualify"} {
+		fn := w.method(d.joint, name)
+		if fn == nil {
+			w.undecided(rule, "joint/"+name, token.NoPos, "unresolved anchor")
+			continue
+		}
+		visitDeep(fn, func(ins ssa.Instruction) {
+			c, ok := ins.(ssa.CallInstruction)
+			if !ok {
+				return
+			}
+			callee := c.Common().StaticCallee()
+			if callee == nil || callee.Signature.Recv() == nil || !isSub(callee.Signature.Recv().Type()) || len(c.Common().Args) == 0 {
+				return
+			}
+			n++
+			target := map[string]bool{}
+			instIdx(c.Common().Args[0], map[ssa.Value]bool{}, target)
+			key := fmt.Sprintf("joint/%s/dispatch:%s", name, callee.Name())
+			bad := ""
+			for _, f := range w.factsAt(ins) {
+				for _, ld := range f.loads {
+					src := map[string]bool{}
+					instIdx(ld.X, map[ssa.Value]bool{}, src)
+					// only reads that go through a sub-instance element count
+					through := false
+					for k := range src {
+						if !strings.HasPrefix(k, "?") {
+							through = true
+						}
+					}
+					if !through {
+						continue
+					}
+					same := len(src) == 1 && len(target) == 1
+					if same {
+						for k := range src {
+							same = target[k]
+						}
+					}
+					if !same && bad == "" {
+						bad = fmt.Sprintf("the call of %s on instance %v is conditioned on `%s`, which reads the state of instance %v", callee.Name(), keysOf(target), f.Expr, keysOf(src))
+					}
+				}
+			}
+			w.check(bad == "", rule, key, ins.Pos(), fmt.Sprintf("dispatch into instance %v depends on no other instance's state", keysOf(target)),
+				bad+": receivers that reached different intermediate conclusions about another dealer would process this event differently (honest disagreement)", factStrings(w.factsAt(ins))...)
+		}, map[*ssa.Function]bool{})
+	}
+	if n == 0 {
+		w.undecided(rule, "joint/dispatch", d.joint.Obj().Pos(), "no call into the per-dealer instances found in the Joint-Feldman handlers")
+	}
+}
+
+func keysOf(m map[string]bool) []string {
+	var ks []string
+	for k := range m {
+		ks = append(ks, k)
+	}
+	sort.Strings(ks)
+	return ks
+}
+
+// ruleAnswerWrittenOnce (C07.R8 / C08.R9): the stored answer of a complaint record is written once — only for a fresh
+// record or while the record has no answer yet (a duplicated answer is flagged, never acted upon).
+func (w *World) ruleAnswerWrittenOnce(rule string, qualFns map[string]*ssa.Function) {
+	// R8 the stored answer of a complaint record is written once: only for a fresh record or while the record has no answer yet
+	nans := 0
+	for _, fn := range qualFns {
+		instrs(fn, func(ins ssa.Instruction) {
+			c, ok := ins.(ssa.CallInstruction)
+			if !ok || len(c.Common().Args) == 0 {
+				return
+			}
+			a0 := render(c.Common().Args[0])
+			if !strings.HasSuffix(a0, ".answer") || !strings.HasPrefix(a0, "&") {
+				return
+			}
+			if !w.callMayWritePointArg(c, c.Common().Args[0]) {
+				return // readers of the stored answer (the discrete-log check)
+			}
+			nans++
+			fs := factStrings(w.testedBefore(ins)) // the test must have been made on this path; the flag itself is set right after it
+			okk := false
+			for _, f := range fs {
+				if strings.HasSuffix(f, ".answerReceived == false") || strings.HasSuffix(f, "]#1 == false") {
+					okk = true
+				}
+			}
+			w.check(okk, rule, fnKey(fn)+"/answer-written-once", ins.Pos(), "the answer scalar is stored only into a fresh record or one that has no answer yet",
+				"a complaint answer is parsed into the record without the `no answer stored yet` test dominating it: a second, different answer from the dealer overwrites the first, and participants that processed the complaint in between keep different answers", fs...)
+		})
+	}
+	if nans == 0 {
+		w.undecided(rule, "answer-writes", token.NoPos, "no write of a complaint answer found")
 	}
 }
